@@ -317,9 +317,12 @@ func controllerScenario(r *rand.Rand, marker bool) scenario {
 	case x < 93:
 		s.Req.Object = adm.ObjSpec{Kind: "namespace", NSName: "n", Labels: nil}
 		kind = "wrongtype"
-	case x < 97:
+	case x < 95:
 		s.Req.Object = adm.ObjSpec{Kind: "pod", Pod: p} // a Pod object under a controller resource is evaluated as its own template
 		kind = "pod-as-template"
+	case x < 97:
+		s.Req.Object = adm.ObjSpec{Kind: "nil"}
+		kind = "nil"
 	default:
 		s.Req.Group, s.Req.Resource = "example.com", "widgets"
 		s.Req.Object = adm.ObjSpec{Kind: "other"}
@@ -571,6 +574,11 @@ func admCase(in *cq.Interner, s *scenario, real, marker policy.Evaluator) (cq.Ca
 	}
 	term := cq.App("AdmCase", adm.CfgTerm(in, &s.Cfg), cq.Bool(s.Marker), adm.ReqTerm(in, &s.Req), adm.WorldTerm(in, &s.World), cq.List(evals),
 		adm.ObsTerm(in, &obs), optObs(in, noex), optObs(in, bare), optObs(in, create), optObs(in, nosub))
+	if s.Req.Resource == "namespaces" {
+		if sig := controlSetSignature(s, inner); sig != "" {
+			sample["signature"] = sig
+		}
+	}
 	sample["observed"] = map[string]interface{}{"response": obs.Resp, "shared": obs.Shared, "trace": traceStrings(obs.Trace)}
 	tags := append([]string{}, s.Tags...)
 	tags = append(tags, fmt.Sprintf("allowed:%v", obs.Resp.Allowed), "shared:"+obs.Shared, fmt.Sprintf("marker:%v", s.Marker))
@@ -611,6 +619,66 @@ func traceStrings(tr []adm.Event) []string {
 	return out
 }
 
+func normReason(r string) string {
+	if r == "forbidden AppArmor profiles" {
+		return "forbidden AppArmor profile"
+	}
+	return r
+}
+
+// controlSetSignature: if the listed pods contain two pods that violate the same
+// set of controls (reasons equal up to the AppArmor plural) at some candidate
+// policy but with different reason texts, name the cause.
+func controlSetSignature(s *scenario, inner policy.Evaluator) string {
+	for _, lv := range s.LVs {
+		groups := map[string]map[string]bool{}
+		for _, p := range s.World.Pods {
+			agg := policy.AggregateCheckResults(inner.EvaluatePod(lv, &p.ObjectMeta, &p.Spec))
+			if agg.Allowed {
+				continue
+			}
+			var norm []string
+			for _, r := range agg.ForbiddenReasons {
+				norm = append(norm, normReason(r))
+			}
+			k := fmt.Sprint(norm)
+			if groups[k] == nil {
+				groups[k] = map[string]bool{}
+			}
+			groups[k][agg.ForbiddenReason()] = true
+		}
+		for _, texts := range groups {
+			if len(texts) > 1 {
+				return "C11/reason-text-splits-same-control-set/appArmorProfile"
+			}
+		}
+	}
+	return ""
+}
+
+// f3Witness: the deterministic witness of finding F3 (two pods violating exactly
+// {appArmorProfile}, one with one offending value, one with two).
+func f3Witness() scenario {
+	lat := api.LevelVersion{Level: api.LevelPrivileged, Version: api.LatestVersion()}
+	mk := func(name string, anns map[string]string) *corev1.Pod {
+		p := &corev1.Pod{}
+		p.Name = name
+		p.Annotations = anns
+		p.Spec.Containers = []corev1.Container{{Name: "c", Image: "i"}}
+		return p
+	}
+	s := scenario{Cfg: adm.CfgSpec{Defaults: api.Policy{Enforce: lat, Audit: lat, Warn: lat}}}
+	s.Req = adm.ReqSpec{Group: "", Resource: "namespaces", Namespace: "ns", Name: "ns", User: "u", Op: "UPDATE",
+		Object: adm.ObjSpec{Kind: "namespace", NSName: "ns", Labels: map[string]string{api.EnforceLevelLabel: "baseline"}},
+		Old:    adm.ObjSpec{Kind: "namespace", NSName: "ns", Labels: map[string]string{}}}
+	s.World.Pods = []*corev1.Pod{
+		mk("a", map[string]string{podgen.AppArmorPrefix + "c": "unconfined"}),
+		mk("b", map[string]string{podgen.AppArmorPrefix + "c": "unconfined", podgen.AppArmorPrefix + "d": "bad"})}
+	s.LVs = candidateLVs([]map[string]string{s.Req.Object.Labels}, s.Cfg.Defaults)
+	s.Tags = []string{"req:namespace", "witness:F3"}
+	return s
+}
+
 // Adm builds the admission stream. mix selects the request classes: any of "pod", "controller", "namespace".
 func Adm(stream string, seed int64, n int, pf string, mix []string) (*cq.Set, *cq.Interner) {
 	r := rand.New(rand.NewSource(seed))
@@ -618,9 +686,20 @@ func Adm(stream string, seed int64, n int, pf string, mix []string) (*cq.Set, *c
 	set := &cq.Set{Stream: stream, Seed: seed, Imports: "Model.Api Model.Pod Model.Checks Model.Admission Corr.Adm", CaseTy: "adm_case", RunFn: "run_adm " + pf,
 		Rule: "admission requests drawn from the decision table of Validate: resource class x subresource (none / the 8 ignored / others) x operation x exemption hits and near-misses per dimension (empty, prefix, case change, value from another list) x dependency answers (lookup ok/err, object and old object ok/err/nil/wrong type, list ok/err, expiry index) x namespace label maps (valid, malformed) x defaults x pods on each side of each level; evaluator = real registry or marker evaluator (50/50); each case also runs the related requests (exemptions cleared, bare pod of the template, as CREATE, without subresource) and records the evaluator's direct answers; distinct by (config, request, world); non-trivial = at least one dependency call, evaluation or metric event"}
 	real, marker := innerEvaluator(false), innerEvaluator(true)
+	if pf == "pf11cs" {
+		s := f3Witness()
+		c, fails := admCase(in, &s, real, marker)
+		set.GoFails = append(set.GoFails, fails...)
+		if c.Term != "" {
+			set.Cases = append(set.Cases, c)
+		}
+	}
 	for i := 0; i < n; i++ {
 		var s scenario
 		mk := r.Intn(2) == 0
+		if pf == "pf11cs" {
+			mk = r.Intn(4) == 0 // mostly the real evaluator: control sets are about the built-in controls
+		}
 		switch mix[r.Intn(len(mix))] {
 		case "pod":
 			s = podScenario(r, mk)
